@@ -313,7 +313,16 @@ class Narrower:
             fake = ast.Compare(left=test, ops=[ast.IsNot()], comparators=[ast.Constant(value=None)])
             return self.narrow_test(fake, env)
         if isinstance(test, ast.UnaryOp) and isinstance(test.op, ast.Not):
-            a, b = self.narrow_test(test.operand, env)
+            # a NEGATED type test that cannot match is a redundancy (always true), not a dead arm: `not is_a and is_b`
+            prev_ = getattr(self, "_unroll_var", None)
+            quiet_ = isinstance(test.operand, ast.Call) and text(test.operand.func) == "isinstance" and test.operand.args and isinstance(test.operand.args[0], ast.Name) and prev_ is None
+            if quiet_:
+                self._unroll_var, self._unroll_tests, self._unroll_hits = test.operand.args[0].id, getattr(self, "_unroll_tests", 0), getattr(self, "_unroll_hits", 0)
+            try:
+                a, b = self.narrow_test(test.operand, env)
+            finally:
+                if quiet_:
+                    self._unroll_var = prev_
             return b, a
         if isinstance(test, ast.BoolOp) and isinstance(test.op, ast.And):
             cur = dict(env)
@@ -686,6 +695,12 @@ def a_r2_r3_properties(schema: Schema, rep: Report):
                     from .dataflow import clone as _clone
 
                     fn_n = _canon.ifexp_assignments_to_if(_clone(fn))
+                if any(isinstance(s_, ast.Assign) and isinstance(s_.value, (ast.Call, ast.BoolOp, ast.UnaryOp)) and "isinstance(" in text(s_.value) for s_ in ast.walk(fn_n)):
+                    # named type tests (`is_stmt = isinstance(t, STMTTRNRS)`) narrow like the tests they name
+                    from . import canon as _canon2
+                    from .dataflow import clone as _clone2
+
+                    fn_n = _canon2.ifexp_assignments_to_if(_canon2.propagate_type_test_locals(_clone2(fn_n) if fn_n is fn else fn_n))
                 nr = Narrower(schema, ci, definer, fn_n, rep).run()
             except AnalysisError as e:
                 rep.undecided(f"A-R2 {cname}.{fn.name}", e)
